@@ -4,3 +4,5 @@ import TerwayModel.Model.Token
 import TerwayModel.Props.C16
 import TerwayModel.Model.VSwitch
 import TerwayModel.Props.C17
+import TerwayModel.Model.Bandwidth
+import TerwayModel.Props.C15
